@@ -160,3 +160,49 @@ Definition kitem_eqb (a b : kitem) : bool := kev_eqb (fst a) (fst b) && list_eqb
 Definition c10_keepalive_class (peers : list ((list kitem * list bool) * (list kitem * list bool))) : N :=
   if forallb (fun p => list_eqb kitem_eqb (fst (fst p)) (fst (snd p)) && list_eqb Bool.eqb (snd (fst p)) (snd (snd p))) peers
   then 0%N else 11%N.
+
+(* ---- round 3: the same address in two representations, tokens that differ by zero bytes in front ---- *)
+
+(* "one logical connection per (remote, local) address pair".  An address is an IP address, a port and a zone.  An
+   IPv4 address a.b.c.d may be held in 4 bytes or in 16 bytes (::ffff:a.b.c.d) -- package net: "a 16-byte slice can
+   still be an IPv4 address" -- and is the same address either way; the kernel reports the peer of an AF_INET socket
+   in the first form, net.ResolveUDPAddr / net.ParseIP / net.IPv4 hand the application the second. *)
+Definition spec_mapped_prefix : list Z := [0; 0; 0; 0; 0; 0; 0; 0; 0; 0; 255; 255].
+Definition spec_ip_id (ip : list Z) : list Z :=
+  if (blen ip =? 16) && bytes_eqb (firstn 12 ip) spec_mapped_prefix then skipn 12 ip else ip.
+Definition sp_addr := (list Z * Z * Z)%type.       (* IP bytes, port, zone *)
+Definition spec_same_addr (a b : sp_addr) : bool :=
+  bytes_eqb (spec_ip_id (fst (fst a))) (spec_ip_id (fst (fst b))) && (snd (fst a) =? snd (fst b)) && (snd a =? snd b).
+
+(* two (remote, local) pairs and whether the server keys them alike: the same pair must get the same key (else one
+   pair is served by two connections), different remote addresses must get different keys (else two peers share a
+   connection).  Nothing is demanded about different LOCAL addresses (multicast groups and the wildcard are merged
+   on purpose). *)
+Definition key_pair_class (r1 l1 r2 l2 : sp_addr) (o_eq : bool) : N :=
+  if spec_same_addr r1 r2 && spec_same_addr l1 l2 && negb o_eq then 4%N
+  else if negb (spec_same_addr r1 r2) && o_eq then 4%N
+  else 0%N.
+
+(* a run against a server with ONE local address during which no connection is closed: every observation names the
+   remote address it concerns, the connection (numbered in the order the server announced them; negative = the
+   server returned an error) that served it -- the connection the application's handler was given for a datagram
+   of the peer, the connection Server.NewConn returned for the address -- and whether the exchange went as it
+   should (the peer's request was answered; the peer's answer to a request the server sent over "the" connection
+   of that peer came back to that request and not to the application as a stray response).
+   1 = the server returned an error, 3 = an exchange failed, 4 = a remote address was served by two connections, or
+   two remote addresses by one. *)
+Fixpoint rep_find (seen : list (sp_addr * Z)) (a : sp_addr) : option Z :=
+  match seen with [] => None | (b, c) :: r => if spec_same_addr a b then Some c else rep_find r a end.
+Fixpoint rep_class (seen : list (sp_addr * Z)) (obs : list (sp_addr * Z * Z)) : N :=
+  match obs with
+  | [] => 0%N
+  | (a, c, res) :: r =>          (* res: 0 = the exchange went as it should, 1 = no answer, 2 = the peer's answer was
+                                   handled as a stray response, i.e. by a connection other than the one asked *)
+      if c <? 0 then 1%N
+      else if res =? 2 then 4%N
+      else match rep_find seen a with
+           | Some c' => if negb (c =? c') then 4%N else if negb (res =? 0) then 3%N else rep_class seen r
+           | None => if existsb (fun x => snd x =? c) seen then 4%N
+                     else if negb (res =? 0) then 3%N else rep_class ((a, c) :: seen) r
+           end
+  end.
